@@ -26,7 +26,28 @@ fn main() {
     // subject is reported as what it is instead of killing the reporter.
     if std::env::var_os("PGMC_CHILD").is_none() && std::env::var_os("PGMC_NO_FORK").is_none() {
         let exe = std::env::current_exe().expect("current_exe");
-        let mut child = std::process::Command::new(exe).args(&args[1..]).env("PGMC_CHILD", "1").spawn().expect("spawn child");
+        let journal = format!("{}/target/journal-{}-{}.jsonl", fw::verif_dir(), args.get(2).map(|s| s.as_str()).unwrap_or("x"), std::process::id());
+        let _ = std::fs::remove_file(&journal);
+        let is_check = args[1] == "check";
+        let mut cmd = std::process::Command::new(&exe);
+        cmd.args(&args[1..]).env("PGMC_CHILD", "1");
+        if is_check {
+            cmd.env("PGMC_JOURNAL", &journal).env("PGMC_PROP", &args[2]);
+        }
+        let mut child = cmd.spawn().expect("spawn child");
+        // the checker did not finish: report what it had found (re-executed) instead of nothing
+        let recover = |why: String| -> ! {
+            let have = is_check && std::fs::metadata(&journal).map(|m| m.len() > 0).unwrap_or(false);
+            if !have {
+                let _ = std::fs::remove_file(&journal);
+                eprintln!("MACHINERY-ERROR: {}; no verdict", why);
+                std::process::exit(2);
+            }
+            eprintln!("note: {}", why);
+            let st = std::process::Command::new(&exe).args(["journal", &args[2], &journal]).env("PGMC_CHILD", "1").status();
+            let _ = std::fs::remove_file(&journal);
+            std::process::exit(st.ok().and_then(|s| s.code()).unwrap_or(2));
+        };
         // hard stop: the engines cap themselves (50 s quick / 14 min thorough); a child that is still
         // running long after that is hung (e.g. a subject loop that does not terminate)
         let thorough = args.iter().any(|a| a == "thorough") || std::env::var("VERIF_TIER").map(|v| v == "thorough").unwrap_or(false);
@@ -39,19 +60,18 @@ fn main() {
                     if std::time::Instant::now() > deadline {
                         let _ = child.kill();
                         let _ = child.wait();
-                        eprintln!("MACHINERY-ERROR: the checker did not finish within {} s and was killed (a subject call that does not terminate?); no verdict", cap * 2 + 120);
-                        std::process::exit(2);
+                        recover(format!("the checker did not finish within {} s and was killed (a subject call that does not terminate?)", cap * 2 + 120));
                     }
                     std::thread::sleep(std::time::Duration::from_millis(50));
                 }
             }
         };
         match status.code() {
-            Some(c) => std::process::exit(c),
-            None => {
-                eprintln!("MACHINERY-ERROR: the checker process was killed by a signal ({:?}); no verdict", status);
-                std::process::exit(2);
+            Some(c) => {
+                let _ = std::fs::remove_file(&journal);
+                std::process::exit(c)
             }
+            None => recover(format!("the checker process was killed by a signal ({:?})", status)),
         }
     }
     fw::install_panic_hook();
@@ -66,6 +86,7 @@ fn main() {
             };
             props::run(&args[2], tier)
         }
+        "journal" => fw::journal_report(&args[2], args.get(3).map(|s| s.as_str()).unwrap_or(""), &|c| props::recheck(&args[2], c)),
         "replay" => props::replay(&args[2], args.get(3).map(|s| s.as_str()).unwrap_or("")),
         other => {
             // internal sub-commands (workers of multi-process engines)
